@@ -102,7 +102,9 @@ class H2Socket(SimSocket):
         return super().send(data)
 
     def close(self):
-        self.net.timeline.append(f"C{self.idx}")
+        # a socket whose connect() failed was never handed to the caller: not part of the trace
+        if self.connected_to is not None or self is self.net.user_socket:
+            self.net.timeline.append(f"C{self.idx}")
         super().close()
 
 
